@@ -911,7 +911,8 @@ func (a *Analysis) ruleS2() {
 					seenClass["miss"] = true
 					tokNamed := false
 					for _, arg := range ev.Args {
-						if s, ok := arg.(StrV); ok && s.Kind == skTok {
+						// the very token that was looked up and not found, not some other token
+						if s, ok := arg.(StrV); ok && s.Kind == skTok && c.B != nil && s.String() == c.B.String() {
 							tokNamed = true
 						}
 					}
@@ -924,7 +925,7 @@ func (a *Analysis) ruleS2() {
 					case ev.Kind != ekFresh:
 						r.Bad("S2e", key, xp, ctx.Name, "a token that is not in the list yields %v; it must be a non-nil error distinct from both sentinels", ev)
 					case !tokNamed:
-						r.Bad("S2e", key, xp, ctx.Name, "the error for an unknown token (%v) does not name the token", ev)
+						r.Bad("S2e", key, xp, ctx.Name, "the error for an unknown token (%v) does not name that token (%v)", ev, c.B)
 					default:
 						if k, ok := c.B.(StrV); !ok || k.Kind != skTok {
 							r.Bad("S2a", key, xp, ctx.Name, "the looked-up key %v is not a token of the normalised input", c.B)
